@@ -180,6 +180,31 @@ pub fn run(ctx: &Ctx) -> Report {
     for g in ground {
         rep.merge(g);
     }
+    // the nonce is absorbed at EVERY difficulty, including the small ones validation would refuse
+    for n in 0..=16u8 {
+        for (di, d) in ds.iter().enumerate() {
+            let digest_felt = Felt::from_bytes_be(d);
+            if digest_felt.to_bytes_be() != *d {
+                continue;
+            }
+            let nonce = match (0..(1u64 << 18)).find(|x| ref_leading_zeros(kind, d, n, *x) >= n as u32) {
+                Some(x) => x,
+                None => continue,
+            };
+            let mut t = Transcript::new(digest_felt);
+            let v = verdict(|| UnsentCommitment { nonce }.commit(&mut t, &PowConfig { n_bits: n }));
+            let mut s = Sponge::new(digest_felt);
+            s.absorb(&[Felt::from(nonce)]);
+            let same = *t.digest() == s.digest && *t.counter() == Felt::ZERO;
+            let class = format!("commit-low-difficulty:{}:{}", v.short(), if same { "absorbed" } else { "state-differs" });
+            rep.eval(&class);
+            rep.nontrivial_case(&format!("commit|{}|{}|{}", kname, di, n));
+            if !v.accepted() || !same {
+                rep.violation(&format!("pow_commit:{}:{}", kname, class), &format!("UnsentCommitment::commit at difficulty {} with a valid nonce {}: {} / transcript {}", n, nonce, v.class(), if same { "ok" } else { "does not equal absorb_u64(nonce)" }),
+                    json!({"kind": "pow_commit", "digest": fhex(&digest_felt), "n": n, "nonce": nonce.to_string()}));
+            }
+        }
+    }
     // configuration validation: all 256 difficulties
     for n in 0..=255u8 {
         let v = verdict(|| PowConfig { n_bits: n }.validate());
